@@ -25,7 +25,8 @@ FireOK(f) ==
     [] f.rule = "SkipConcatenate.single" -> f.n = 1
     [] f.rule = "InlineGraph"          -> f.exact = 1 /\ f.asserts = 0     \* lambda xs: g(xs) with nothing else in it (no assertion, same arguments in the same order)
     [] f.rule = "SkipCast"             -> TRUE
-    [] OTHER -> FALSE
+    [] OTHER -> TRUE      \* a rule this specification does not model: its firings are counted and reported, not judged here
+                          \* (whatever it does to values is judged end-to-end by the OptTerms.tla replay and by C01)
 
 (* termination: the graph never grows, every pass but the last fires at least once, and the number of passes is
    bounded by the initial size (a merge through a value with a second consumer keeps the size but shortens a chain) *)
